@@ -86,6 +86,21 @@ CHECKS = {
              'co-execution); interpreter limits (recursion on deeply nested MIME containers) are outside the model.',
         technique='Rocq proof (state invariant, pigeonhole for fresh names) + differential co-execution against the Python code',
     ),
+    'C08': dict(
+        ref='5.8',
+        text='Theorems in coq/Properties/C08.v (partial): cutting any text into lines, and the lines into header lines, one '
+             'dropped empty separator and body, conserves every character; every paragraph that cannot be read as fields '
+             '(no field, a parser defect, a leading "From " line, a MIME container) is returned whole under "unknown"; for a '
+             'repeated name every distinct single-line value is kept under the first occurrence, LF-separated, in order of '
+             'first appearance, and a value already merged is skipped without replacing the merged value (invariant over '
+             'item lists of any length). NOT proved: that every word of a header line reaches a field name or value - this '
+             'goes through the modelled fragment of the standard email package and is decided by co-execution of the model with '
+             'email.message_from_string / get_paragraph_data / get_paragraphs_data / Debian822(text) on header-ish, control-file, '
+             'well-formed and raw Unicode texts, all sequences of <=5/6 repeated-name fields, and by the executable statement '
+             '(every word of the input is covered; merge equation).',
+        note=TRUST + 'email.message_from_string is environment code: modelled (Model/Email.v), validated by co-execution, not verified.',
+        technique='Rocq proof (partial) + differential co-execution against the Python code and the stdlib email parser',
+    ),
     'C10': dict(
         ref='5.10',
         text='Theorems in coq/Properties/C10.v (partial): every range recorded when a paragraph is built is (first line with '
